@@ -183,4 +183,4 @@ def post_nightly(res, cases, impl, model):
 def run(tier, seed):
     return run_simple("C05", tier, seed, gen, TRUSTED,
                       "uniformly random (scalar, point) pairs (≈94% off the prime-order subgroup), the complete low-order / non-canonical / high-bit table × scalar bit patterns, u ∈ {0,1,p−1,p,p+1,2^255−1}, RFC 7748 vectors (1000-iteration vector in the thorough tier), honest DH/precalc/kx pairs with the mirror check, low-order peers; distinct by (op, implementation answer)",
-                      ["dalek arithmetic modelled by the Lean RFC 7748 ladder"], post=post_nightly)
+                      ["dalek arithmetic modelled by the Lean RFC 7748 ladder"], post=post_nightly, concurrent=True)
